@@ -12,12 +12,26 @@ ET_REFUSABLE = ["battery", "battery2", "meter_ext", "meter_ext2", "mppt", "eco_v
 POWER_CLASSES = [20000, 5000, 30000]       # (big, small, big: objects of one series on both sides of the 15 kW / 25 kW limits, both orders)
 
 
+# The documented model tables (serial-number tags per platform / capability), copied here so that the expectations do NOT follow
+# an edit of goodwe/model.py: what a tag means is part of the oracle.
+DOC_205 = ("ETU", "ETL", "ETR", "BHN", "EHU", "BHU", "EHR", "BTU")
+DOC_745_LV = ("ESN", "EBN", "EMN", "SPN", "ERN", "ESC", "HLB", "HMB", "HBB", "EOA")
+DOC_745_HV = ("ETT", "HTA", "HUB", "AEB", "SPB", "CUB", "EUB", "HEB", "ERB", "BTT", "ETF", "ARB", "URB", "EBR")
+DOC_753 = ("AES", "HHI", "ABP", "EHB", "HSB", "HUA", "CUA")
+DOC_ET = DOC_205 + DOC_745_LV + DOC_745_HV + DOC_753 + ("ETC", "BTC", "BTN")
+DOC_ES = ("ESU", "EMU", "ESA", "BPS", "BPU", "EMJ", "IJL")
+DOC_DT = ("DTU", "DTS", "MSU", "MST", "MSC", "DSN", "DTN", "DST", "NSU", "SSN", "SST", "SSX", "SSY", "PSB", "PSC")
+DOC_SINGLE = ("DSN", "DST", "NSU", "SSN", "SST", "SSX", "SSY", "MSU", "MST", "PSB", "PSC", "MSC", "EHU", "EHR", "HSB",
+              "ESN", "EMN", "ERN", "EBN", "HLB", "HMB", "HBB", "SPN")
+DOC_MPPT3 = ("MSU", "MST", "PSC", "MSC", "25KET", "29K9ET")
+DOC_MPPT4 = ("HSB",)
+DOC_BAT2 = ("25KET", "29K9ET")
+
+
 def tag_lists(g):
-    m = g.model
-    et = list(m.ET_MODEL_TAGS) + ["25KET", "29K9ET"]
-    return {"ET": et, "DT": list(m.DT_MODEL_TAGS), "ES": list(m.ES_MODEL_TAGS),
-            "single": set(m.SINGLE_PHASE_MODELS), "mppt3": set(m.MPPT3_MODELS), "mppt4": set(m.MPPT4_MODELS),
-            "bat2": set(m.BAT_2_MODELS), "p745": set(m.PLATFORM_745_LV_MODELS) | set(m.PLATFORM_745_HV_MODELS)}
+    return {"ET": list(DOC_ET) + ["25KET", "29K9ET"], "DT": list(DOC_DT), "ES": list(DOC_ES),
+            "single": set(DOC_SINGLE), "mppt3": set(DOC_MPPT3), "mppt4": set(DOC_MPPT4),
+            "bat2": set(DOC_BAT2), "p745": set(DOC_745_LV) | set(DOC_745_HV)}
 
 
 def serial_for(tag):
